@@ -10,11 +10,11 @@ from rsx import tokenize, split_items
 ROOT = os.path.dirname(os.path.dirname(os.path.abspath(__file__)))
 src = open(os.path.join(ROOT, 'selftest', 'r14', 'cases.rs')).read()
 ex = Extractor(os.environ.get('VERIF_REPO', '/repo'), os.path.join(ROOT, 'spec'), 'core')
-ex.baseline = {'cases::main'}          # every function of the test file is "new"
+ex.baseline = {'cases::main', 'cases::main2', 'cases::first_seven', 'cases::read_u16_then_u8', 'cases::swapped', 'cases::T::sum2', 'cases::two_pads'}   # the callers; every other function is "new"
 toks = tokenize(src); items = split_items(toks, 0, len(toks))
 plan = ex.plan_inlining(toks, items, 'cases')
 print('helpers reduced at all their call sites:', sorted(plan))
-want = {'take', 'sub_checked', 'at', 'scale', 'checked', 'pad'}
+want = {'take', 'sub_checked', 'at', 'scale', 'checked', 'pad', 'find_first'}
 if set(plan) != want:
     print('UNEXPECTED plan, wanted', sorted(want)); sys.exit(1)
 out = []
